@@ -509,6 +509,22 @@ def rt_getitem(obj, key):
     return obj[key]
 
 
+def rt_is(a, b):
+    if isinstance(a, SBool) and isinstance(b, bool):
+        return a if b else b_not(a)
+    if isinstance(b, SBool) and isinstance(a, bool):
+        return b if a else b_not(b)
+    if isinstance(a, (SStr, SInt)) and isinstance(b, (SStr, SInt, str, int)) and not isinstance(b, bool):
+        if a is b:
+            return True
+        raise Unsupported("identity comparison of symbolic values")
+    return a is b
+
+
+def rt_is_not(a, b):
+    return b_not(rt_is(a, b)) if True else None
+
+
 def rt_any(it):
     for x in it:
         if x:
@@ -531,11 +547,13 @@ def rt_not(x):
 
 _RT_FUNCS = {
     rt_in, rt_not_in, rt_int, rt_chr, rt_ord, rt_isinstance, rt_issubclass, rt_type, rt_str, rt_bytes, rt_bool,
-    rt_len, rt_repr, rt_fmt, rt_fstr, rt_mod, rt_call, rt_callm, rt_getitem, rt_any, rt_all, rt_enter,
+    rt_len, rt_repr, rt_fmt, rt_is, rt_is_not, rt_fstr, rt_mod, rt_call, rt_callm, rt_getitem, rt_any, rt_all, rt_enter,
 }
 
 RT_GLOBALS = {
     "_ms_in": rt_in,
+    "_ms_is": rt_is,
+    "_ms_is_not": rt_is_not,
     "_ms_not_in": rt_not_in,
     "_ms_call": rt_call,
     "_ms_callm": rt_callm,
